@@ -50,6 +50,7 @@ M = [
         inner
             .rowset_deletion_to_apply
             .insert(epoch, rowset_deletion_to_apply);
+        inner.dropped_tables.extend(dropped_tables);
 
         Ok(epoch)''', '''        // Add epoch number and make the modified snapshot available.
         let epoch = {
@@ -61,6 +62,7 @@ M = [
             inner
                 .rowset_deletion_to_apply
                 .insert(epoch, rowset_deletion_to_apply);
+            inner.dropped_tables.extend(dropped_tables);
             epoch
         };
 
@@ -114,10 +116,15 @@ impl PrimitiveFixedWidthEncode for i64'''),
      '''                    .iter(column_refs.clone(), vec![], ColumnSeekPosition::start(), None)'''),
     # --- C08
     ('c08_drop_table_unlinks', 'C08', 'who:', 'src/storage/secondary/manifest.rs',
-     '''        // and then persist to manifest
-        self.version.commit_changes(changeset).await?;
-''', '''        // and then persist to manifest
-        self.version.commit_changes(changeset).await?;
+     '''        let entry = DropTableEntry { table_id };
+
+        // contrary to create table, we first modify the catalog
+        self.apply_drop_table(&entry)?;
+''', '''        let entry = DropTableEntry { table_id };
+
+        // contrary to create table, we first modify the catalog
+        self.apply_drop_table(&entry)?;
+        let pin_version = self.version.pin();
         if let Some(rowsets) = pin_version.snapshot.get_rowsets_of(table_id.table_id) {
             for rowset_id in rowsets {
                 let path = self.options.path.join(format!("{}_{}", table_id.table_id, rowset_id));
@@ -287,6 +294,39 @@ impl PrimitiveFixedWidthEncode for i64'''),
     ('c08_commit_evicts_rowset', 'C08', 'evicts·rowsets', 'src/storage/secondary/version_manager.rs',
      '                        rowset_deletion_to_apply.push((entry.table_id.table_id, entry.rowset_id));',
      '                        rowset_deletion_to_apply.push((entry.table_id.table_id, entry.rowset_id));\n                        inner.rowsets.remove(&(entry.table_id.table_id, entry.rowset_id));'),
+    # --- rules written after the batch-9/10 observations: the pre-fix shape of each repair
+    ('c11_join_keys_uncast', 'C11', 'one-type-per-key-pair', 'src/executor/mod.rs',
+     '''        assert_eq!(self.node(cond), &Expr::true_());
+        let (left_keys, right_keys) = self.resolve_join_keys(lkeys, rkeys, left, right);
+        HashJoinExecutor::<T> {''', '''        assert_eq!(self.node(cond), &Expr::true_());
+        let left_keys = self.resolve_column_index(lkeys, left);
+        let right_keys = self.resolve_column_index(rkeys, right);
+        HashJoinExecutor::<T> {'''),
+    ('c10_commit_into_dropped_table', 'C10', 'refuses-objects-of-a-dropped-table', 'src/storage/secondary/version_manager.rs',
+     '                    return Err(TracedStorageError::not_found("table", table_id));',
+     '                    warn!("commit into the dropped table {}", table_id);'),
+    ('c16_insert_surplus_only', 'C16', 'source-width-equals-target-columns', 'src/binder/insert.rs',
+     '        if expected != actual {', '        if expected < actual {'),
+    ('c05_empty_chunk_opens_rowset', 'C05', 'no-row-set-for-an-empty-chunk', 'src/storage/secondary/transaction.rs',
+     '''        if columns.cardinality() == 0 {
+            return Ok(());
+        }
+''', ''),
+    ('c09_delete_of_dead_row', 'C09', 'victims-alive-in-own-snapshot', 'src/storage/secondary/transaction.rs',
+     '''        if deleted {
+            return Err(TracedStorageError::not_found("row", id.row_id()));
+        }
+''', '''        let _ = deleted;
+'''),
+    ('c17_systable_ignores_columns', 'C17', 'output-built-from-columns', 'src/executor/system_table_scan.rs',
+     '''        yield if self.columns.is_empty() {
+            DataChunk::no_column(chunk.cardinality())
+        } else {
+            (self.columns.iter())
+                .map(|c| chunk.array_at(c.column_id as usize).clone())
+                .collect()
+        };''', '''        let _ = self.columns.len();
+        yield chunk;'''),
 ]
 
 
